@@ -195,6 +195,12 @@ class RustFile:
             elif ch in CLOSE:
                 depth -= 1
                 if depth < 0:
+                    # a block's trailing result expression (no `;`): it ends where its block closes
+                    if ch == '}' and m[j:k].strip():
+                        e = k
+                        while e > j and m[e - 1] in ' \t\n':
+                            e -= 1
+                        return e
                     raise ExtractError('statement runs past its block')
                 if depth == 0 and ch == '}' and blocklike:
                     rest = m[k + 1:k + 40].lstrip()
